@@ -48,7 +48,8 @@ def gen(rs: int, tier: str, index: int) -> dict:
         # whatever the worker does with them then, it must not acknowledge before the function has finished
         kn = dict(KNOBS, W=[0.05, 0.2, 0.2, 1.0], N=[None, None, 1, 2, 3], p_stop=0.85, p_sync=0.34, p_crash=0.0, workers=[1],
                   durations={"zero": 1, "tiny": 1, "short": 2, "medium": 4, "long": 5, "poll": 2})
-    return gen_worker_script(rs, tier_knobs(kn, tier, index))
+    from ._wcommon import maybe_cli_entry
+    return maybe_cli_entry(gen_worker_script(rs, tier_knobs(kn, tier, index)), index, 7, 5)
 
 
 def oracle(script: dict, run: Any) -> List[Violation]:
@@ -97,7 +98,11 @@ def oracle(script: dict, run: Any) -> List[Violation]:
                         if not (fn_enter is None and h.first(d, "dep_fail") is not None):
                             out.append(Violation("C02/saved-ack-before-finish", f"when_saved: delivery {d} acknowledged at event {a[0]} before its task function finished and without a store attempt"))
         # exactly once for completed processing
-        if kind == "valid" and not crashed and cb_exit is not None and not acks:
+        # a callback still running when listen() returned (wait_tasks_timeout elapsed) belongs to a worker that is exiting: nothing
+        # keeps its task alive any more (a garbage collection destroys it), which is a crash as far as the acknowledgement goes
+        lret = next((e for e in h.kind("listen_return") if e[5]["w"] == wn and e[5]["gen"] == gen), None)
+        orphaned = lret is not None and cb_exit is not None and cb_exit[0] > lret[0]
+        if kind == "valid" and not crashed and not orphaned and cb_exit is not None and not acks:
             # no fault kind used by this check makes callback() raise legitimately (no failing hooks, acks or cancellations are scripted),
             # so processing that ended - however it ended - without the acknowledgement is a message that is never acknowledged
             how = cb_exit[5].get("how")
